@@ -30,11 +30,21 @@ def main():
         if a.startswith("--also"):
             also = sys.argv[sys.argv.index(a) + 1].split(",")
     src = f"/tmp/seed-{name}" if os.path.isdir(f"/tmp/seed-{name}") else f"/tmp/seed-{pid}"
-    patch = os.path.join(src, "seed_patch.diff")
-    demo = os.path.join(src, "seed_demo.py")
-    meta_txt = open(os.path.join(src, "seed_meta.txt")).read() if os.path.exists(os.path.join(src, "seed_meta.txt")) else ""
+    stored = os.path.join(HERE, "seeded", name)
+    prev = {}
+    if not os.path.exists(os.path.join(src, "seed_patch.diff")) and os.path.isdir(stored):
+        # re-evaluation of a stored seed (the agent's worktree is gone): the demo still names it
+        prev = json.load(open(os.path.join(stored, "meta.json")))
+        src = f"/tmp/seed-{name}"
+        patch = os.path.join(stored, "patch.diff")
+        demo = os.path.join(stored, "demo.py")
+        meta_txt = prev.get("agent_notes", "")
+    else:
+        patch = os.path.join(src, "seed_patch.diff")
+        demo = os.path.join(src, "seed_demo.py")
+        meta_txt = open(os.path.join(src, "seed_meta.txt")).read() if os.path.exists(os.path.join(src, "seed_meta.txt")) else ""
     d = tempfile.mkdtemp(prefix="seedeval-")
-    rec = {"property": pid, "name": name, "ran": []}
+    rec = {"property": pid, "name": name, "ran": [], "prev": prev}
     try:
         wt = os.path.join(d, "r")
         run(f"git -C /repo worktree add -q --detach {wt} HEAD")
@@ -55,7 +65,7 @@ def main():
         rec["demo_with_patch_exit"] = r1.returncode
         rec["demo_output_with_patch"] = r1.stdout[-600:]
         rec["confirmed"] = bool(rec["pinned_ok"] and r0.returncode == 0 and r1.returncode != 0)
-        print(json.dumps({k: v for k, v in rec.items() if k != "demo_output_with_patch"}, indent=1))
+        print(json.dumps({k: v for k, v in rec.items() if k not in ("demo_output_with_patch", "prev")}, indent=1))
         if not rec["confirmed"]:
             return finish(rec, None)
         env = dict(os.environ, VERIF_REPO=wt, VERIF_EVIDENCE_DIR=os.path.join(d, "evidence"))
@@ -84,14 +94,24 @@ def finish(rec, files):
         patch, demo, meta_txt, src = files
         out = os.path.join(HERE, "seeded", rec["name"])
         os.makedirs(out, exist_ok=True)
-        shutil.copy(patch, os.path.join(out, "patch.diff"))
-        open(os.path.join(out, "demo.py"), "w").write(open(demo).read())
+        if os.path.abspath(patch) != os.path.abspath(os.path.join(out, "patch.diff")):
+            shutil.copy(patch, os.path.join(out, "patch.diff"))
+            open(os.path.join(out, "demo.py"), "w").write(open(demo).read())
         meta = {"property": rec["property"], "breaks": rec["property"], "origin": "independent sub-agent given only the property text and a scratch worktree",
                 "agent_notes": meta_txt, "needs_to_manifest": "see agent_notes (WHAT IS NEEDED TO MANIFEST)",
                 "confirmed": {"patch_applies_to_repo_head": rec["patch_applies"], "pinned_suite_with_patch": rec["pinned_suite"],
                               "demo_exit_without_patch": rec["demo_without_patch_exit"], "demo_exit_with_patch": rec["demo_with_patch_exit"]},
                 "checks_run": rec["ran"], "detected_by": rec.get("detected_by", {}),
                 "how_to_rerun": f"git -C /repo worktree add --detach /tmp/x HEAD && git -C /tmp/x apply {os.path.join('seeded', rec['name'], 'patch.diff')} ; VERIF_REPO=/tmp/x VERIF_EVIDENCE_DIR=/tmp/x-ev /venv/bin/python check {rec['property']} --tier quick ; git -C /repo worktree remove --force /tmp/x"}
+        prev = rec.get("prev") or {}
+        if prev:
+            # keep the history of earlier evaluations of this seed
+            hist = prev.get("earlier_evaluations", [])
+            hist.append({"checks_run": prev.get("checks_run"), "detected_by": prev.get("detected_by")})
+            meta["earlier_evaluations"] = hist
+            for k in ("first_evaluation", "strengthening"):
+                if k in prev:
+                    meta[k] = prev[k]
         json.dump(meta, open(os.path.join(out, "meta.json"), "w"), indent=1)
         print("stored in", out, "detected_by:", rec.get("detected_by"))
     else:
